@@ -5,9 +5,9 @@
    call site); the Text.wrap contract of the word_wrap path is DISCHARGED from C02's theorems
    (C17_wrap_contract), it is no longer a hypothesis.
    `current_facts` are the call-site facts regenerated from /repo on every run (gen/SyntaxFacts.v). *)
-From RichModel Require Import Prelude Cells Syntax SpecSyntax SyntaxWrap.
+From RichModel Require Import Prelude Cells Syntax SpecSyntax SyntaxWrap SyntaxTb.
 From RichGen Require SyntaxFacts.
-From RichProofs Require Import SyntaxP SyntaxP2 SyntaxW SyntaxG SyntaxP3 SyntaxP4 SyntaxP5.
+From RichProofs Require Import SyntaxP SyntaxP2 SyntaxW SyntaxG SyntaxP3 SyntaxP4 SyntaxP5 SyntaxP6.
 
 (* Tie 1: today's /repo passes stripnl=False/ensurenl=True to get_lexer_by_name, guards the skip
    loop of tokens_to_spans, skips the indent-guide pass on an empty selection; and the Syntax(...)
@@ -95,7 +95,7 @@ Theorem C17_traceback_frame_ok : forall code lineno extra ww transparent guides 
               o_highlight o = [lineno] /\ o_range o = Some (lineno - extra, lineno + extra).
 Proof.
   intros code lineno extra ww transparent guides W Hc He Hl.
-  apply (traceback_frame_ok lex wrapf_text lexok_fixed wrapf_text_ok); try assumption; try reflexivity; vm_compute; discriminate.
+  apply (traceback_frame_ok lex wrapf_text lexok_fixed wrapf_text_ok true); try assumption; try reflexivity; vm_compute; discriminate.
 Qed.
 
 (* ... and, whatever the file's leading blank lines or length, the source line at the frame's line
@@ -111,9 +111,36 @@ Theorem C17_traceback_marks_failing_line : forall code lineno extra transparent 
               failing_line_b code lineno avail guides out = true.
 Proof.
   intros code lineno extra transparent guides W avail e Hc He Hl.
-  apply (traceback_marks_failing_line lex wrapf_text code lineno extra transparent guides W avail e lexok_fixed Hc He Hl);
+  apply (traceback_marks_failing_line lex wrapf_text true code lineno extra transparent guides W avail e lexok_fixed Hc He Hl);
     try reflexivity; vm_compute; discriminate.
 Qed.
+(* (6) Traceback.extract + Traceback._render_stack, every frame of a stack.  Frames are data (the
+   entries of the traceback object: co_filename, tb_lineno, co_name); `read` is the content of a file
+   AT RENDER TIME (None = unreadable), an oracle evaluated per render; `lexsel` is what _guess_lexer +
+   get_lexer_by_name make of (file name, code).  For every frame, in order: a "<...>" pseudo file
+   shows its header only; an unreadable file (or a failing lexer guess) shows the error text; any
+   other frame shows a code block that is right for the content `read` returns NOW -- lines
+   lineno-extra..lineno+extra of that content under their own numbers, pointer exactly on lineno, and
+   (non-wrapping) the failing line itself displayed when it exists there and is not blank.  The
+   code_cache local to one render is transparent; nothing survives from one render to the next. *)
+Theorem C17_traceback_stack_ok : forall (read : str -> option str)
+    (lexsel : str -> str -> option (bool * (str -> list (Z * str)))) extra ww transparent guides W frames,
+  (forall f code, read f = Some code -> clean code = true) ->
+  (forall f code found lx, lexsel f code = Some (found, lx) -> LexOk (f_lex current_facts) lx) ->
+  0 <= extra -> Forall (fun fr => 1 <= fr_lineno fr) frames ->
+  exists out, render_stack read lexsel current_facts wrapf_text extra ww transparent guides W frames = Ok out /\
+              Forall2 (frame_shows read lexsel extra ww transparent guides W) frames out.
+Proof.
+  intros read lexsel extra ww transparent guides W frames Hcl Hlx He Hfr.
+  apply (render_stack_ok read lexsel wrapf_text extra ww transparent guides W wrapf_text_ok Hcl Hlx He);
+    try reflexivity; try exact Hfr; vm_compute; discriminate.
+Qed.
+
+(* Traceback.extract: the frame's line number is the traceback entry's (tb_lineno), its name the code
+   object's; relative file names are joined to the import-time cwd *)
+Theorem C17_extract_keeps_lineno : forall cwd e,
+  fr_lineno (extract_frame cwd e) = te_lineno e /\ fr_name (extract_frame cwd e) = te_name e.
+Proof. exact extract_frame_lineno. Qed.
 End C17.
 
 Print Assumptions C17_wrap_contract.
@@ -125,6 +152,8 @@ Print Assumptions C17_highlight_keeps_chars.
 Print Assumptions C17_highlight_keeps_chars_ranged.
 Print Assumptions C17_traceback_frame_ok.
 Print Assumptions C17_traceback_marks_failing_line.
+Print Assumptions C17_traceback_stack_ok.
+Print Assumptions C17_extract_keeps_lineno.
 
 (* the hypotheses are satisfiable on non-trivial inputs: a lexer meeting LexOk, the model's own
    wrap function on a sample, and a source with leading/trailing blank lines *)
@@ -153,6 +182,23 @@ Example C17_plain_nonvacuous :
   exists out, render (one_token_lexer (f_lex fixed_facts)) fixed_facts wrapf_text plain_opts guides_code 12 = Ok out /\
               lines_match_b plain_opts guides_code 12 out = true /\ length out = 2%nat.
 Proof. eexists. split; [vm_compute; reflexivity|]. split; vm_compute; reflexivity. Qed.
+
+(* the same path read twice with different contents (the file was rewritten between two renders): each
+   render shows the lines of ITS content; plus a pseudo file and an unreadable file *)
+Definition tb_code2 : str :=   (* "x = 1\nraise Y\n" *)
+  [120; 32; 61; 32; 49; 10; 114; 97; 105; 115; 101; 32; 89; 10].
+Definition path_m : str := lit "/T/m.py".
+Definition read_then (content : str) : str -> option str := fun f => if str_eqb f path_m then Some content else None.
+Definition lexsel1 : str -> str -> option (bool * (str -> list (Z * str))) :=
+  fun _ _ => Some (true, one_token_lexer (f_lex fixed_facts)).
+Definition frames1 := [mkFrame path_m 4 (lit "f"); mkFrame (lit "<string>") 1 []; mkFrame (lit "/T/gone.py") 3 []].
+Example C17_stack_rewritten_path_nonvacuous :
+  (exists b1 b3, render_stack (read_then tb_code) lexsel1 fixed_facts wrapf_text 0 false true false 100 frames1
+     = Ok [(mkFrame path_m 4 (lit "f"), BCode [b1]); (mkFrame (lit "<string>") 1 [], BSkipped); (mkFrame (lit "/T/gone.py") 3 [], b3)]
+     /\ rstrip_sp b1 = POINTER ++ lit "4 raise X" /\ b3 = BError)
+  /\ (exists b1, render_stack (read_then tb_code2) lexsel1 fixed_facts wrapf_text 0 false true false 100 [mkFrame path_m 2 (lit "g")]
+     = Ok [(mkFrame path_m 2 (lit "g"), BCode [b1])] /\ rstrip_sp b1 = POINTER ++ lit "2 raise Y").
+Proof. split; [eexists _, _|eexists]; (split; [vm_compute; reflexivity|]); repeat split; vm_compute; reflexivity. Qed.
 
 Example C17_traceback_nonvacuous :
   exists out, render_frame (one_token_lexer (f_lex fixed_facts)) fixed_facts wrap_fit tb_code 4 3 false true false 100 = Ok out /\
